@@ -247,6 +247,8 @@ enum TOp {
     MGrow,
     MFreeze,
     MUnsplit,
+    /// Vec::from(BytesMut half): takes the whole buffer over when the half is the last handle, copies otherwise
+    MIntoVec,
 }
 #[derive(Clone, Copy, Debug, PartialEq, Eq)]
 enum MainMode {
@@ -519,7 +521,7 @@ fn run_thread(tid: usize, ops: &[TOp], mut own: Vec<Hd>, mut muts: Vec<(BytesMut
                     m.reserve(total + 4);
                     let p = m.as_ptr() as usize;
                     if &m[..] != &expect[..] {
-                        panic!("C05,C01{}: BytesMut after a growing reserve holds {:02x?}, want {:02x?}", if m.iter().any(|&x| x == 0xDD) { ",C02,C03" } else { "" }, &m[..], expect);
+                        panic!("C05,C01,C04{}: BytesMut after a growing reserve holds {:02x?}, want {:02x?}", if m.iter().any(|&x| x == 0xDD) { ",C02,C03" } else { "" }, &m[..], expect);
                     }
                     if p == before && ctx.in_buffer(p) {
                         take_excl(tid * 4);
@@ -529,6 +531,26 @@ fn run_thread(tid: usize, ops: &[TOp], mut own: Vec<Hd>, mut muts: Vec<(BytesMut
                     }
                     crate::BufMut::put_u8(m, 0xE1);
                     expect.push(0xE1);
+                }
+            }
+            TOp::MIntoVec => {
+                if let Some((m, expect)) = muts.pop() {
+                    ctx.ghost_read(m.as_ptr() as usize, m.len());
+                    let mut v: Vec<u8> = m.into();
+                    if &v[..] != &expect[..] {
+                        panic!("C05,C01{}: Vec from a BytesMut half holds {:02x?}, want {:02x?}", if v.iter().any(|&x| x == 0xDD) { ",C02,C03" } else { "" }, &v[..], expect);
+                    }
+                    if v.capacity() > 0 && v.as_ptr() as usize == ctx.base && ctx.tracked {
+                        // it took the buffer itself: exclusive owner of the whole allocation
+                        take_excl(tid * 4 + 3);
+                        ctx.ghost_write(ctx.base, 2 * ctx.region_len);
+                        for x in v.iter_mut() {
+                            *x = 0xFF;
+                        }
+                    } else {
+                        note_outcome(tid * 4 + 1);
+                    }
+                    drop(v);
                 }
             }
             TOp::MFreeze => {
@@ -788,7 +810,7 @@ fn seqs(alpha: &[TOp], max_len: usize, first: &[TOp]) -> Vec<Vec<TOp>> {
 fn family(set: &str) -> Vec<Program> {
     let core = [TOp::CloneRef, TOp::IsUniqueRef, TOp::Drop, TOp::TryIntoMut, TOp::IntoMut, TOp::IntoVec];
     let full = [TOp::CloneRef, TOp::IsUniqueRef, TOp::CloneOwn, TOp::Read, TOp::Slice, TOp::Drop, TOp::TryIntoMut, TOp::IntoMut, TOp::IntoVec];
-    let mcore = [TOp::MWrite, TOp::MReserve, TOp::MTryReclaim, TOp::MGrow, TOp::MFreeze, TOp::Drop];
+    let mcore = [TOp::MWrite, TOp::MReserve, TOp::MTryReclaim, TOp::MGrow, TOp::MFreeze, TOp::MIntoVec, TOp::Drop];
     let mut out = vec![];
     let (alpha, k, mains): (&[TOp], usize, &[MainMode]) = match set {
         "quick" => (&core, 2, &[MainMode::Keep, MainMode::DropEarly]),
